@@ -374,3 +374,173 @@ def check_C12(P, tier):
     R.analysed = {"files": sorted({"src/%s.py" % k[0].replace(".", "/") for k in G.order}), "functions": sorted({k[2] for k in G.order}), "paths": SA.nruns,
                   "module_state": {"%s.%s" % k: v for k, v in state.items()}, "call_graph_size": len(G.order)}
     return R, "effect / memo-key analysis over the solver's call graph; semantic equality of thread/precision variants"
+
+
+# --------------------------------------------------------------------------
+# C14 drivers
+
+from interp import GenList, PyList, Unknown
+import props_wiring as pw
+
+
+def _single_stub(log):
+    def stub(I, args, kwargs, node):
+        names = ["config", "tower", "met_index", "surface_flux", "cache"]
+        b = dict(zip(names, args))
+        b.update(kwargs)
+        b.setdefault("met_index", ZERO)
+        b.setdefault("surface_flux", None)
+        b.setdefault("cache", None)
+        log.append((b, I.seq, list(I.events), [c[0] for c in I.calls]))
+        t = b["tower"]
+        tn = t.attrs["name"] if isinstance(t, Opaque) and "name" in t.attrs else alg.sym("?tower")
+        flux = b["surface_flux"]
+        fx = flux if isinstance(flux, Expr) else alg.sym("no_flux")
+        c = b["cache"]
+        cx = alg.sym("cache:%s" % (c.name if isinstance(c, Opaque) else repr(c)))
+        mi = b["met_index"] if isinstance(b["met_index"], Expr) else alg.sym("?index")
+        return alg.fn("single", tn, mi, fx, cx)
+
+    return stub
+
+
+def _driver_config(P, use_cache=False):
+    ov = {"config.parallel.use_cache": use_cache, "config.solver.footprint": True, "config.met.timestamps": None}
+    for f in ("ustar", "mol", "wind_speed", "wind_dir"):
+        ov["config.met." + f] = PyList("config.met." + f, length=alg.sym("n_steps", pos=True, integer=True))
+    ov["config.met.z0"] = None
+    return CM.make_obj(P, "BLDFMConfig", "config", ov)
+
+
+def _expect_series(tower, nsteps, flux, cache_name):
+    """predicate: value is [single(tower, i, flux, cache) for i in range(n_steps)]"""
+    def check(v):
+        if not (isinstance(v, Tup) and v.kind == "list" and len(v.items) == 1 and isinstance(v.items[0], GenList)):
+            return False, "not a list generated over the time steps: %s" % repr(v)[:200]
+        g = v.items[0]
+        if not (g.rng.start.eq(ZERO) and g.rng.step.eq(ONE) and g.rng.count.eq(nsteps)):
+            return False, "steps run over range(%r, %r, %r)" % (g.rng.start, g.rng.stop, g.rng.step)
+        i = g.rng.start + alg.atom_expr(g.ivar) * g.rng.step
+        want = alg.fn("single", tower.attrs["name"], i, flux if isinstance(flux, Expr) else alg.sym("no_flux"), alg.sym("cache:%s" % cache_name))
+        if not (isinstance(g.elem, Expr) and g.elem.eq(want)):
+            return False, "element is %s, expected %s" % (repr(g.elem)[:200], want)
+        return True, None
+
+    return check
+
+
+def driver_obligations(P):
+    obs = []
+    nsteps = alg.sym("n_steps", pos=True, integer=True)
+    site_ts = "src/bldfm/interface.py::run_bldfm_timeseries"
+    for use_cache in (False, True):
+        cfg = _driver_config(P, use_cache)
+        tower = cfg.attrs["towers"].items[0]
+        flux = alg.sym("user_flux")
+        log = []
+        res = CM.run_paths(P, "bldfm.interface", "run_bldfm_timeseries", [cfg, tower], {"surface_flux": flux}, stubs={"bldfm.interface.run_bldfm_single": _single_stub(log)})
+        rets = [r for r in res if r.kind == "return"]
+        ok1 = len(res) == 1 and len(rets) == 1
+        obs.append(req_ob("R-SERIAL", site_ts, "one straight path (use_cache=%s)" % use_cache, ok1, detail=str([(r.kind, r.raise_desc, r.path) for r in res])[:300]))
+        if ok1:
+            cname = "None" if not use_cache else "bldfm.cache.GreensFunctionCache"
+            ok, why = _expect_series(tower, nsteps, flux, cname)(rets[0].value)
+            obs.append(req_ob("R-SERIAL", site_ts, "returns the single runs of this tower for met_index = 0..n_timesteps-1, in time order, with the supplied flux (use_cache=%s)" % use_cache, ok, detail=why, key={"driver": "timeseries"}))
+            cfgs = [b["config"] is cfg and b["tower"] is tower for b, _, _, _ in log]
+            obs.append(req_ob("R-SERIAL", site_ts, "every single run gets the driver's own configuration and tower", bool(cfgs) and all(cfgs)))
+    # multitower
+    site_mt = "src/bldfm/interface.py::run_bldfm_multitower"
+    cfg = _driver_config(P)
+    flux = alg.sym("user_flux")
+    log = []
+    res = CM.run_paths(P, "bldfm.interface", "run_bldfm_multitower", [cfg], {"surface_flux": flux}, stubs={"bldfm.interface.run_bldfm_single": _single_stub(log)})
+    rets = [r for r in res if r.kind == "return"]
+    ok1 = len(res) == 1 and len(rets) == 1 and isinstance(rets[0].value, Tup) and rets[0].value.kind == "dict"
+    obs.append(req_ob("R-SERIAL", site_mt, "returns a mapping", ok1))
+    towers = cfg.attrs["towers"].items
+    if ok1:
+        items = rets[0].value.items
+        okk = len(items) == len(towers) and all(pw.same_value(k, t.attrs["name"]) for (k, _), t in zip(items, towers))
+        obs.append(req_ob("R-SERIAL", site_mt, "results are keyed by tower name in configuration order", okk, detail=repr([k for k, _ in items])[:200]))
+        for (k, v), t in zip(items, towers):
+            ok, why = _expect_series(t, nsteps, flux, "None")(v)
+            obs.append(req_ob("R-SERIAL", site_mt, "each entry is the time series of its own tower", ok, detail=why, key={"driver": "multitower"}))
+    # parallel
+    site_p = "src/bldfm/interface.py::run_bldfm_parallel"
+    for strategy in ("towers", "time", "both"):
+        cfg = _driver_config(P)
+        towers = cfg.attrs["towers"].items
+        log = []
+        pool_calls = []
+
+        def executor(I, args, kwargs, node):
+            return Opaque("pool", {"max_workers": kwargs.get("max_workers", args[0] if args else None)})
+
+        def pool_map(I, args, kwargs, node):
+            f, tasks = args[0], args[1]
+            pool_calls.append(("map", f))
+            if not isinstance(tasks, Tup):
+                return Unknown("map over %r" % (tasks,))
+            out = []
+            for t in tasks.items:
+                if isinstance(t, GenList):
+                    out.append(GenList(I.call(f, [t.elem], {}, node, {}), t.ivar, t.rng))
+                else:
+                    out.append(I.call(f, [t], {}, node, {}))
+            return Tup(out, "list")
+
+        def forbidden(name):
+            def stub(I, args, kwargs, node):
+                pool_calls.append((name, None))
+                return Unknown(name)
+            return stub
+
+        stubs = {"bldfm.interface.run_bldfm_single": _single_stub(log), "concurrent.futures.ProcessPoolExecutor": executor,
+                 "concurrent.futures.ThreadPoolExecutor": executor, "pool.map": pool_map, "pool.submit": forbidden("submit"),
+                 "concurrent.futures.as_completed": forbidden("as_completed"), "concurrent.futures.wait": forbidden("wait")}
+        res = CM.run_paths(P, "bldfm.interface", "run_bldfm_parallel", [cfg], {"max_workers": alg.sym("workers", pos=True, integer=True), "parallel_over": strategy}, stubs=stubs)
+        rets = [r for r in res if r.kind == "return"]
+        okp = len(res) == 1 and len(rets) == 1 and isinstance(rets[0].value, Tup) and rets[0].value.kind == "dict"
+        obs.append(req_ob("R-ORDERED", site_p, "strategy %r returns a mapping on a single path" % strategy, okp, detail=str([(r.kind, r.raise_desc) for r in res])[:200]))
+        only_map = bool(pool_calls) and all(k == "map" for k, _ in pool_calls)
+        obs.append(req_ob("R-ORDERED", site_p, "strategy %r distributes work only through Executor.map (results in task order whatever the completion order)" % strategy, only_map, detail=str([k for k, _ in pool_calls])))
+        if okp:
+            items = rets[0].value.items
+            okk = len(items) == len(towers) and all(pw.same_value(k, t.attrs["name"]) for (k, _), t in zip(items, towers))
+            obs.append(req_ob("R-ORDERED", site_p, "strategy %r: results keyed by tower name in configuration order" % strategy, okk, detail=repr([k for k, _ in items])[:200]))
+            for (k, v), t in zip(items, towers):
+                ok, why = _expect_series(t, nsteps, None, "None")(v)
+                obs.append(req_ob("R-ORDERED", site_p, "strategy %r: the entry of a tower is the time-ordered list of its own single runs" % strategy, ok, detail=why, key={"strategy": strategy}))
+            mis = [e for e in rets[0].events if e[0] == "misaligned-slice"]
+            obs.append(req_ob("R-ORDERED", site_p, "strategy %r: flat results are re-assembled at the task boundaries" % strategy, not mis, detail=str(mis[:1]) if mis else None))
+        # R-RESET: before each worker's solve the thread count is one and the FFT singleton is dropped
+        for b, seq, events, calls in log:
+            set1 = [e for e in events if e[0] == "attr-store" and e[2][1] == "NUM_THREADS" and isinstance(e[2][2], Expr) and e[2][2].eq(ONE)]
+            reset = [c for c in calls if c.endswith("reset_fft_manager")]
+            obs.append(req_ob("R-RESET", "src/bldfm/interface.py::worker (strategy %r)" % strategy, "the worker sets the runtime thread count to one and drops the inherited FFT manager before solving", bool(set1) and bool(reset),
+                              detail=None if set1 and reset else "NUM_THREADS=1: %s, reset_fft_manager: %s" % (bool(set1), bool(reset)), key={"strategy": strategy}))
+    # unknown strategy raises
+    cfg = _driver_config(P)
+    res = CM.run_paths(P, "bldfm.interface", "run_bldfm_parallel", [cfg], {"max_workers": ONE, "parallel_over": "nonsense"}, stubs={"bldfm.interface.run_bldfm_single": _single_stub([])})
+    obs.append(req_ob("R-ORDERED", site_p, "an unknown strategy is rejected", bool(res) and all(r.kind == "raise" for r in res)))
+    return obs
+
+
+def check_C14(P, tier):
+    import props_cache as pc
+
+    R = Result("C14", tier)
+    R.min_obligations = 30
+    R.explanation = ("The drivers are interpreted abstractly with run_bldfm_single replaced by an opaque function single(tower, met_index, flux, cache), lists built in "
+                     "range loops represented by their generic element, and Executor.map given its contract (results in task order): run_bldfm_timeseries must return "
+                     "[single(tower, i) for i in range(n_timesteps)] with the supplied flux and the per-series cache; run_bldfm_multitower a mapping keyed by tower name "
+                     "in configuration order whose entries are those series; each parallel strategy ('towers', 'time', 'both') must use only Executor.map (no submit / "
+                     "as_completed), hand each worker a task tuple that the worker unpacks into the same (config, tower, met_index) call, and re-assemble the flat "
+                     "result list exactly at the task boundaries; every worker sets NUM_THREADS=1 and drops the FFT singleton before solving; a cache is attached only "
+                     "in footprint mode with caching on. Actual completion orders are covered by the map contract (trusted), not explored.")
+    R.trusted = ["concurrent.futures.Executor.map returns results in the order of its input regardless of completion order", "dict preserves insertion order", TRUST12]
+    R.add(driver_obligations(P))
+    R.add(pc.make_cache_obligation(P))
+    R.add([o for o in pw.range_steps_obligations(P)])
+    R.analysed = {"files": ["src/bldfm/interface.py", "src/bldfm/cli.py"], "functions": ["run_bldfm_timeseries", "run_bldfm_multitower", "run_bldfm_parallel", "_worker_single", "_worker_timeseries", "_make_cache", "cmd_run"], "paths": 8}
+    return R, "ordered-executor contract, generic-element list semantics, positional re-assembly, worker tuples"
